@@ -202,12 +202,12 @@ def range_proofs(ctx):
         ctx.classes["tlaps_obligations_proved"] = ctx.classes.get("tlaps_obligations_proved", 0) + int(m.group(1))
         ctx.classes["tlaps_" + mod[:-4]] = int(m.group(1))
     ctx.assumptions.append("TLAPS 1.6 (SMT back end Z3) checks proofs correctly")
-    ctx.require("tlaps_RangeMessage", 120)
+    ctx.require("tlaps_RangeMessage", 270)
     for (w, s, md) in [(2, 4, 3), (3, 6, 1), (2, 6, 1)] + ([(2, 6, 2), (2, 8, 1)] if ctx.tier == "thorough" else []):
         st = ctx.tlc("MC_RangeBridge", {"W": w, "S": s, "MaxData": md}, invariants=["DecBridge", "EncBridge", "SealBridge"], workers=12, timeout=3000, label="MC_RangeBridge_%d_%d" % (w, s))
         if st["spec_violation"]:
             raise core.ToolError("MC_RangeBridge: Range.tla does not compute the step proved in spec/proofs at W=%d S=%d:\n%s" % (w, s, st.get("counterexample", "")))
-    ctx.require("tlaps_obligations_proved", 650)
+    ctx.require("tlaps_obligations_proved", 800)
 
 
 def ans_proofs(ctx):
